@@ -79,6 +79,14 @@ def gen_cases(rng, quick):
         b = rng.randint(a + 1, n - 1)
         zeta = 10 ** rng.uniform(-1, 2)
         add(t, n, ("rminmax", zeta, 2.0), 2, zeta, 2.0, (a, b))
+    # nearly flat integrands (envelope much wider than the window), whole range given explicitly so that only the model is asked:
+    # with the harness's tolerance ladder these are the inputs on which the FIRST acceptance test of either scheme decides, i.e. where the
+    # seeds of the recursion (T_1, "4 T_0", T_2) matter; peaked integrands never pass it
+    for i in range(16 if quick else 80):
+        t = i % 2
+        n = rng.choice(one[2:] if t == 0 else two[1:])
+        z = 10 ** rng.uniform(-1, 2)
+        add(t, n, ("rminmax", z, rng.uniform(0, 5)) if i % 4 < 2 else ("none",), 0, (z if i % 4 < 2 else 1.0) * 10 ** rng.uniform(-4, -1.5), rng.uniform(0, 1), (0, n - 1))
     return cases
 
 
